@@ -37,34 +37,9 @@ SIG_LAYERS = ("C11|rtlmax_ltrmin_decomposition|a later layer has a left-to-right
               "value >= number of remaining entries")
 
 
-# --------------------------------------------------------------------------------------------
-# reporting.  core.Ctx.merge keeps at most 400 violation records and drops further records that
-# carry no signature, so thousands of stored known-finding records would crowd out a fresh
-# violation found later in the run.  Cases that match a known finding are therefore all COUNTED
-# (exactly as Partial.violation counts them) but only a few are STORED as records: the first per
-# signature in a shard that was told to store them (small lengths / first shard of a sub-check).
-# --------------------------------------------------------------------------------------------
-
-_STORE_KNOWN = False
-_STORED = set()
-
-
-def begin_shard(store_known):
-    global _STORE_KNOWN
-    _STORE_KNOWN = bool(store_known)
-    _STORED.clear()
-
-
 def report(part, sub, case, detail, sig=None):
-    if sig is None:
-        part.violation(sub, case, detail)
-    elif _STORE_KNOWN and sig not in _STORED:
-        _STORED.add(sig)
-        part.violation(sub, case, detail, sig=sig)
-    else:
-        part.nviol += 1
-        part.bump("sig:" + sig)
-
+    """sig is only ever passed when the implementation's answer equals a deviation model."""
+    part.violation(sub, case, detail, sig=sig)
 
 
 def _lib():
@@ -323,7 +298,6 @@ def shard_perms(shard):
     n, lo, hi, do_methods, do_table, do_repeat, want_vec, skip_heavy = shard
     Perm, PS = _lib()
     part = Partial()
-    begin_shard(n <= 5)       # smallest witnesses of the known findings have length 4 and 5
     entries = table_entries(PS) if do_table else []
     payload = []
     names = sorted(METHODS)
@@ -331,6 +305,7 @@ def shard_perms(shard):
         names = [nm for nm in names if nm not in HEAVY]
         entries = [e for e in entries if e[1] not in HEAVY]
     sampled = False
+    mid = R.perms(n)[(lo + hi) // 2] if hi > lo else None
     for p in R.perms(n)[lo:hi]:
         if do_methods:
             for name in names:
@@ -341,7 +316,7 @@ def shard_perms(shard):
                     part.add(1, 1 if nontrivial_value(exp) else 0)
                     if do_repeat:
                         part.bump("repeat-pairs")
-            if not sampled and n >= 5 and lo == 0:
+            if not sampled and n >= 5 and lo == 0 and p == mid:
                 sampled = True
                 part.sample({"perm": p, "rtlmax_ltrmin_decomposition": D.layers(p),
                              "longestruns_ascending": D.longest_runs(p, True),
@@ -481,9 +456,8 @@ def run_dist_case(part, basis, nmax, stat_names=None):
 
 
 def shard_dist(shard):
-    bases, nmax, store = shard
+    bases, nmax = shard
     part = Partial()
-    begin_shard(store)
     for basis in bases:
         run_dist_case(part, basis, nmax)
     if bases and bases[0] is not None:
@@ -572,9 +546,7 @@ def run_pair_case(part, tool, b1, b2, n, dim):
 
 def shard_pairs(shard):
     part = Partial()
-    store, cases = shard
-    begin_shard(store)
-    for tool, b1, b2, n, dim in cases:
+    for tool, b1, b2, n, dim in shard:
         nt = run_pair_case(part, tool, b1, b2, n, dim)
         part.add(1, nt)
     return part
@@ -692,8 +664,6 @@ def run_bij_case(part, label, pairs, tools):
 
 def shard_bij(shard):
     part = Partial()
-    store, shard = shard
-    begin_shard(store)
     for label, pairs, tools in shard:
         nt = run_bij_case(part, label, pairs, tools)
         part.add(len(tools), nt)
@@ -727,7 +697,6 @@ def all_bijections_s3_shards(per, maps=False):
 def shard_bij_s3(shard):
     images, tools, kind = shard
     part = Partial()
-    begin_shard(False)
     s3 = R.perms(3)
     for im in images:
         pairs = list(zip(s3, im))
@@ -796,7 +765,6 @@ def shard_isprime(shard):
     lo, hi = shard
     from permuta.misc.math import is_prime
     part = Partial()
-    begin_shard(False)
     nt = 0
     for m in range(lo, hi):
         exp = PRIMES[m] if m >= 0 else False
@@ -830,9 +798,13 @@ def pool_bases(maxlen, maxsize):
 
 
 def split(seq, k):
+    """at most k contiguous chunks (the order of the cases - simplest first - is kept, so the first
+    recorded violation of a sub-check is the simplest one)"""
     seq = list(seq)
-    k = max(1, min(k, len(seq)))
-    return [seq[i::k] for i in range(k)]
+    if not seq:
+        return []
+    size = -(-len(seq) // max(1, k))
+    return [seq[i:i + size] for i in range(0, len(seq), size)]
 
 
 # --------------------------------------------------------------------------------------------
@@ -843,7 +815,6 @@ def run(ctx, only=None):
 
     global PRIMES
     quick = ctx.quick
-    begin_shard(False)
     D.selftest(5)
     Perm, PS = _lib()
 
@@ -902,8 +873,7 @@ def run(ctx, only=None):
             for lo, hi in chunks(n, per[n]):
                 shards.append((n, lo, hi, want("methods"), want("table"),
                                want("methods") and n <= 5, n <= ntools, n >= 9))
-        # big lengths first keeps the pool busy; the reported order of violations is by shard
-        # order (simplest first) regardless
+        # shards are listed shortest permutations first (simplest counterexample first)
         payloads = ctx.pmap(shard_perms, shards)
         for pl in payloads:
             for p, ref, dev in pl or ():
@@ -948,11 +918,11 @@ def run(ctx, only=None):
     if want("dist"):
         e0 = ctx.evals
         nd = 6 if quick else 7
-        shards = [([None], nd, True)] + [([b], nd, False) for b in pool]
+        shards = [([None], nd)] + [([b], nd) for b in pool]
         if not quick:
             # + 516 bases with a pattern of length 4, explored to length 6
             big = [b for b in pool_bases(4, 2) if max(len(x) for x in b) == 4]
-            shards += [(c, 6, False) for c in split(big, 128)]
+            shards += [(c, 6) for c in split(big, 128)]
         ctx.pmap(shard_dist, shards)
         ctx.bounds["dist"] = ("all 32 table statistics x (all permutations + every class with a basis of "
                               "<=2 patterns of length <=3 (45)) x lengths 0..%d" % nd
@@ -981,7 +951,7 @@ def run(ctx, only=None):
         if not quick:
             for b1, b2 in itertools.combinations_with_replacement(singles[3:], 2):
                 cases.append(("jointly_equally_distributed", b1, b2, 3, 3))
-        shards = [(i == 0, c) for i, c in enumerate(split(cases, 64 if quick else 256))]
+        shards = split(cases, 64 if quick else 256)
         ctx.pmap(shard_pairs, shards)
         ctx.bounds["classes"] = {
             "pool": "bases of <=2 patterns of length <=3 (45 classes; 9 single-pattern classes)",
@@ -1005,7 +975,7 @@ def run(ctx, only=None):
                 cases.append((label, pairs, all_tools))
         for label, pairs in bij_family_upto(nb):
             cases.append((label, pairs, all_tools))
-        ctx.pmap(shard_bij, [(i < 4, c) for i, c in enumerate(split(cases, 64))])
+        ctx.pmap(shard_bij, split(cases, 64))
         per = 12 if quick else 9
         s3 = [(chunk, all_tools[:3], "bijection-of-S3")
               for chunk in all_bijections_s3_shards(per)]
@@ -1038,7 +1008,6 @@ def run(ctx, only=None):
 def replay(ctx, rec):
     Perm, PS = _lib()
     sub, case = rec["sub"], rec["case"]
-    begin_shard(True)
     T = 3      # repeat on fresh objects: a failure that needs an earlier call still reproduces
     if sub in ("methods", "repeat"):
         p = tuple(case["perm"])
@@ -1093,6 +1062,19 @@ def replay(ctx, rec):
     elif sub in ("dist", "classes", "bijections"):
         # T rounds in this process: a failure that only shows from the second call on (state kept
         # between calls) still reproduces; reported once
+        # warm-up on other inputs first (results discarded): state kept by the library between
+        # calls with different arguments then shows in the replayed case as it did in the run
+        warm = Partial()
+        if sub == "dist":
+            for wb in ([[0, 1]], None, [[1, 0]]):
+                if wb != case["basis"]:
+                    run_dist_case(warm, wb, case["n"], stat_names={case["stat"]})
+        elif sub == "classes":
+            run_pair_case(warm, case["tool"], [[0, 1]], [[1, 0]], case["n"], case["dim"])
+        else:
+            s2 = R.perms(2)
+            run_bij_case(warm, "warm-up", [(p, R.apply_sym("reverse", p)) for p in s2],
+                         (case["tool"],))
         for _ in range(T):
             part = Partial()
             if sub == "dist":
